@@ -8,6 +8,7 @@ CONSTANTS
   MapInit = 10
   Chunk = 10
   PutCost = 0
+  TxnBeforeGate = FALSE
   BatchMax = 1
   MaxOps = 14
   WithReads = FALSE
